@@ -217,12 +217,25 @@ def cli_args(root, st, aux):
     return _cli_args(root, st, aux)
 
 
+def spell_path(root, s, mode):
+    """the same file or folder below root, typed in a non-normalised way"""
+    if mode == "dot":
+        return root + os.sep + "." + os.sep + s
+    if mode == "dup":
+        return root + os.sep + os.sep + s
+    if mode == "updown" and "/" in s:
+        return root + os.sep + s.split("/")[0] + os.sep + ".." + os.sep + s
+    if mode == "updown":
+        return root + os.sep + "." + os.sep + s
+    return os.path.join(root, s)
+
+
 def _cli_args(root, st, aux):
     op = st["op"]
     r = os.path.join(root, st.get("root", "")) if st.get("root") else root
     if st.get("spell") == "slash":          # the same folder, typed with a trailing separator
         r = r + os.sep
-    if st.get("verbose") and op in ("create", "verify", "verifydh", "verifypl", "diff", "flatten", "info"):
+    if st.get("verbose") and op in ("create", "verify", "verifydh", "verifypl", "diff", "flatten", "info", "infosf"):
         cmd, a = _cli_args(root, {k: v for k, v in st.items() if k != "verbose"}, aux)
         return cmd, a + ["-v"]
     if op == "create":
@@ -233,8 +246,8 @@ def _cli_args(root, st, aux):
             a.append("-n")
         if st.get("dr"):
             a.append("-dr")
-        for s in st.get("sf") or []:
-            a += ["-sf", os.path.join(root, s)]
+        for k, s in enumerate(st.get("sf") or []):
+            a += ["-sf", spell_path(root, s, (st.get("sf_spell") or [None] * (k + 1))[k % max(1, len(st.get("sf_spell") or [None]))])]
         for i in st.get("i") or []:
             a += ["-i", i]
         if st.get("ii") is not None:
@@ -248,7 +261,7 @@ def _cli_args(root, st, aux):
     if op == "verify":
         a = [r]
         if st.get("sf") is not None:
-            a += ["-sf", os.path.join(root, st["sf"])]
+            a += ["-sf", spell_path(root, st["sf"], (st.get("sf_spell") or [None])[0])]
         for i in st.get("i") or []:
             a += ["-i", i]
         return "verify", a
@@ -317,7 +330,26 @@ def hist_state(root):
 
 
 def run_impl(scn, scratch, keep=False, snap=False):
-    """-> (list of observations, root path).  One observation per step (edits give {'edit': op})"""
+    """-> (list of observations, root path).  One observation per step (edits give {'edit': op}).
+    scn["tz"]: the whole scenario runs under this TZ value (restored afterwards)"""
+    if scn.get("tz"):
+        import time as _time
+
+        old_tz = os.environ.get("TZ")
+        os.environ["TZ"] = scn["tz"]
+        _time.tzset()
+        try:
+            return _run_impl(scn, scratch, keep, snap)
+        finally:
+            if old_tz is None:
+                os.environ.pop("TZ", None)
+            else:
+                os.environ["TZ"] = old_tz
+            _time.tzset()
+    return _run_impl(scn, scratch, keep, snap)
+
+
+def _run_impl(scn, scratch, keep=False, snap=False):
     base = scratch.new("s")
     root = os.path.join(base, scn.get("root_name", "r"))
     os.mkdir(root)
